@@ -28,7 +28,7 @@ FUNCTIONS = ['TapeRecorder (all operator methods, __getattr__, grade, __pow__, d
              'do_compile', 'Algebra.register', 'OperatorDict with codegen=user function (symbolic=True)', 'do_codegen', 'compiled glue functions']
 ASSUMPTIONS = ['coefficients are reals; denominators non-zero; radicands non-negative', 'programs are enumerated/sampled (bound); argument values symbolic',
                'a direct evaluation that itself raises (e.g. inverse of an identically singular intermediate) makes the case void']
-BOUNDS = {'quick': 'all depth-1 trees + 450 sampled depth-2 trees (1-2 arguments) x 2 argument patterns, algebras R2, R1,1, 2D-PGA, R3; register(symbolic=True) on d=2 only; 48 histories of four registered functions on one algebra (called again after all were compiled); crossed nesting of numeric and symbolic registered functions; truth value / equality inside f (lenient); every spelling of the grade-3 blade; grade selections in any order',
+BOUNDS = {'quick': 'all depth-1 trees + 450 sampled depth-2 trees (1-2 arguments) x 2 argument patterns, algebras R2, R1,1, 2D-PGA, R3; register(symbolic=True) on d=2 only; 48 histories of four registered functions on one algebra (called again after all were compiled); crossed nesting of numeric and symbolic registered functions; truth value / equality inside f (lenient); every spelling of the grade-3 blade; grade selections in any order; coefficient access combined by + - * / on either side, scalar-valued functions; nested registered functions over three storage orders of the same blades (all four mode combinations in d=2)',
           'thorough': 'all depth-2 trees on three patterns, 1500 random depth-3 trees, 320 multi-function histories'}
 OUTSIDE = ['multivector API outside the supported list (only "raises or equal" is demanded there and is not generated)', 'lambdas (cannot be registered: <lambda> is not an identifier)']
 OPTS = {'rlimit': 300_000_000, 'canary_every': 15, 'case_budget_s': 30}
